@@ -245,11 +245,28 @@ def py_parse_request(data):
     return {"method": parts[0], "target": parts[1], "headers": hs, "body": body, "rest": rest}
 
 
+def body_length_mismatch(r, written):
+    """the head was legal and written; the error is about the body not matching the declared
+    Content-Length (reported as LocalProtocolError since the h11 send calls are mapped) - the
+    property's rejection clause is about heads only"""
+    i = written.find(b"\r\n\r\n")
+    if i < 0:
+        return False
+    lines = written[:i].split(b"\r\n")[1:]
+    cl = [v.strip() for n, _, v in (l.partition(b":") for l in lines) if n.lower() == b"content-length"]
+    te = [1 for n, _, v in (l.partition(b":") for l in lines) if n.lower() == b"transfer-encoding"]
+    if te or len(cl) != 1 or not cl[0].isdigit():
+        return False
+    sent = written[i + 4:]
+    body = b"".join(r["chunks"])
+    return int(cl[0]) != len(body) and body.startswith(sent) and len(sent) <= int(cl[0])
+
+
 def oracle_h1(r, url, eff_hs, target, written, outcome):
     """property statement on one transmission"""
     fails = []
     if outcome.startswith("error:LocalProtocolError"):
-        if written:
+        if written and not body_length_mismatch(r, written):
             fails.append(("rejected-but-written", {}))
         return fails
     if not outcome == "ok":
